@@ -25,7 +25,7 @@ PROP = 'C06'
 
 PROFILES = {
     'quick': dict(ex_fuel=1, sim_num=60, sim_fuel=4, layouts_num=120,
-                  corrupt_all=30, corrupt_sim=24),
+                  corrupt_all=45, corrupt_sim=12),
     'thorough': dict(ex_fuel=2, sim_num=1500, sim_fuel=5, layouts_num=6000,
                      corrupt_all=400, corrupt_sim=200),
 }
@@ -95,10 +95,13 @@ def Signature(item):
     sig['op'] = re.sub(r'[()]', '', item['op'])
   if d['kind'] in ('main', 'imported'):
     sig['path_tail'] = '/'.join(d.get('path', '').split('/')[-2:])
-  text = item['text']
+  # comments removed (roughly; only to describe the failure)
+  text = re.sub(r'/\*.*?\*/', '', item['text'], flags=re.S)
+  text = re.sub(r'#[^\n]*', '', text)
   # constructs known to matter (narrow descriptions, see c06.notes.md)
   construct = 'other'
-  if d['kind'] == 'main' and re.search(r"'[^']*\\[^\\'\"nrtxuU]", text):
+  if d['kind'] == 'main' and re.search(r"'[^']*\\[^\\'\"nrtxuU]",
+                                       item['text']):
     construct = 'cpp-unknown-escape'
   elif (d['kind'] == 'accept' and d['py'] == 'ok' and d['cpp'] == 'rej' and
         re.search(r'import [ \t\n]+\S|[ \t\n] as |\sas [ \t\n]', text)):
@@ -152,7 +155,21 @@ def Run(tier):
   # (LSyntaxCorrupt), concurrently
   order = list(range(len(cases)))
   rng.shuffle(order)
-  corrupt_all_idx = sorted(order[:prof['corrupt_all']])
+  # greedy production cover first (so that every token kind, e.g. string
+  # literals for CutString, is corrupted), then seeded random
+  corrupt_all_idx = []
+  covered = set()
+  for i in order:
+    new = set(cases[i]['prods']) - covered
+    if new and len(corrupt_all_idx) < prof['corrupt_all']:
+      corrupt_all_idx.append(i)
+      covered |= new
+  for i in order:
+    if len(corrupt_all_idx) >= prof['corrupt_all']:
+      break
+    if i not in corrupt_all_idx:
+      corrupt_all_idx.append(i)
+  corrupt_all_idx.sort()
   def Triples(i):
     return {'id': tcs[i]['id'],
             'toks': [[t['k'], t['t'], t['g']] for t in cases[i]['toks']]}
@@ -259,6 +276,8 @@ def Run(tier):
   rejected_corrupt = sum(v for (s, a, b), v in accept.items()
                          if s == 'corruption' and a == 'rej' and b == 'rej')
 
+  both_ok = sum(v for (s_, a, b), v in accept.items() if a == 'ok' and b == 'ok')
+  accept_disagree = sum(v for (s_, a, b), v in accept.items() if a != b)
   with open(os.path.join(common.BuildDir('replay', PROP), 'all_failures.json'),
             'w') as f:
     json.dump(violations, f, indent=0)
@@ -284,8 +303,10 @@ def Run(tier):
                   for it in (items[:2] + items[len(items) // 2:
                                                len(items) // 2 + 2])],
       'evaluations': len(items),
-      'distinct_nontrivial': accepted_canon,
-      'rule': ('programs: every derivation of spec/LSyntaxGen.tla with <= %d '
+      'distinct_nontrivial': both_ok + accept_disagree,
+      'rule': ('non-trivial = distinct texts on which two trees were compared '
+               '(both parsers accept) or the parsers disagree on acceptance; '
+               'programs: every derivation of spec/LSyntaxGen.tla with <= %d '
                'non-default productions per statement incl. imports (%d) + %d '
                'simulated; per program the canonical text, the all-spaces '
                'layout with trailing semicolon and LLexNoise layouts (%d); '
